@@ -285,6 +285,7 @@ Definition pass_wf (E : env) (p : pass) : Prop :=
   p_failed p = (is_bare (p_repo p) || e_run_fails E (p_repo p)) /\
   match p_scope p with
   | ScopeAll => True
+  | ScopeNone => True
   | ScopeFiles l => forall f, In f l -> in_wd E (p_repo p) f = true
   end.
 
@@ -292,7 +293,8 @@ Lemma run_pass_wf E r files : pass_wf E (run_pass E r files).
 Proof.
   unfold pass_wf, run_pass, scope_of. cbn [p_scope p_repo p_failed]. split; [reflexivity |].
   destruct files as [l |]; [| exact I].
-  destruct (filter (keeps E r) l) as [| x k] eqn:Ef; [exact I |].
+  destruct (filter (keeps E r) l) as [| x k] eqn:Ef;
+    [destruct l; [exact I | destruct foreign_request_scans_all; exact I] |].
   intros f Hf. rewrite <- Ef in Hf. apply filter_In in Hf as [_ Hf]. unfold keeps in Hf.
   now apply andb_true_iff in Hf as [Hf _].
 Qed.
@@ -325,19 +327,29 @@ Proof.
   - apply file_based_mode_wf.
 Qed.
 
+Lemma dispatch_wf E cwd p h : outcome_wf E (dispatch E cwd p h).
+Proof.
+  unfold dispatch.
+  destruct h; try (cbn; constructor).
+  - destruct (preset_name p); [| apply route_wf].
+    destruct (preset_entry _ _) as [[ov ex] |]; [| apply route_wf].
+    destruct p; try apply route_wf;
+      (destruct (decode_preset _ _ _); [apply route_wf | cbn; constructor]).
+  - destruct (preset_name p); [| apply route_wf].
+    destruct (preset_entry _ _) as [[ov ex] |]; [| apply route_wf].
+    destruct p; try apply route_wf;
+      (destruct (decode_preset _ _ _); [apply route_wf | cbn; constructor]).
+  - destruct (preset_name p); [| apply route_wf].
+    destruct (preset_entry _ _) as [[ov ex] |]; [| apply route_wf].
+    destruct p; try apply route_wf;
+      (destruct (decode_preset _ _ _); [apply route_wf | cbn; constructor]).
+Qed.
+
 Lemma handle_checkpoint_wf E p h : outcome_wf E (handle_checkpoint E p h).
 Proof.
   unfold handle_checkpoint.
   destruct h; try (cbn; constructor);
-  destruct (e_cwd E) as [cwd |]; try (destruct cwd_unwrap_panics; cbn; constructor); try (cbn; constructor).
-  - destruct (preset_name p); [| apply route_wf].
-    destruct (preset_entry _ _) as [[ov ex] |]; [| apply route_wf].
-    destruct p; try apply route_wf;
-      (destruct (decode_preset _ _ _); [apply route_wf | cbn; constructor]).
-  - destruct (preset_name p); [| apply route_wf].
-    destruct (preset_entry _ _) as [[ov ex] |]; [| apply route_wf].
-    destruct p; try apply route_wf;
-      (destruct (decode_preset _ _ _); [apply route_wf | cbn; constructor]).
+    (destruct (e_cwd E) as [cwd |]; [apply dispatch_wf | destruct cwd_unwrap_panics; [exact I | apply dispatch_wf]]).
 Qed.
 
 Lemma in_wd_resolve E r f : in_wd E r f = true -> prefixb (workdir r) (resolve E f) = true.
@@ -350,7 +362,7 @@ Proof.
   unfold recorded_in, records. destruct o as [st ps |]; [| intros []].
   intro H. apply in_flat_map in H as (p & Hp & H).
   unfold pass_records in H. destruct (p_failed p) eqn:Ef; [destruct H |].
-  destruct (p_scope p) as [| l] eqn:Es; [destruct H |].
+  destruct (p_scope p) as [| | l] eqn:Es; [destruct H | destruct H |].
   apply in_flat_map in H as (f & Hf & H).
   cbv zeta in H. destruct (git_accepts (e_layout E) (p_repo p) (resolve E f)) eqn:Eg; [| destruct H].
   destruct H as [H | []]. inversion H; subst.
@@ -474,32 +486,57 @@ Proof.
   - intros d' Hk. unfold pick_skipping_submodules. now rewrite Hk.
 Qed.
 
-Lemma plain_file_in_wd E f q r :
-  e_stat E f = IsFile q -> innermost (e_layout E) q = Some r -> keeps E r f = true /\ resolve E f = q.
+Lemma strip_path_prefix a : forall b, prefixb a b = true -> exists rest, strip_path a b = Some rest /\ b = a ++ rest.
 Proof.
-  intros Hs Hin. destruct (innermost_spec _ _ _ Hin) as (_ & Hp & Hb).
+  induction a as [| x a IH]; intros b H; cbn [strip_path prefixb] in *.
+  - exists b. split; reflexivity.
+  - destruct b as [| y b]; [discriminate |].
+    apply andb_true_iff in H as [H1 H2]. rewrite H1. apply str_eqb_eq in H1. subst y.
+    destruct (IH b H2) as (rest & Hs & Hb). exists rest. split; [exact Hs | now rewrite Hb].
+Qed.
+
+Lemma root_at_in wb : forall l r, In r l -> (wb = false -> is_bare r = false) -> root_at wb l (r_root r) <> None.
+Proof.
+  induction l as [| x l IH]; intros r Hi Hb; [destruct Hi |]. cbn [root_at].
+  destruct (path_eqb (r_root x) (r_root r) && (wb || negb (is_bare x))) eqn:E; [discriminate |].
+  destruct Hi as [-> | Hi]; [| now apply IH].
+  rewrite path_eqb_refl in E. cbn in E. destruct wb; [discriminate |].
+  cbn in E. rewrite Hb in E by reflexivity. discriminate.
+Qed.
+
+Lemma plain_file_in_wd E f q r :
+  e_stat E f = IsFile q -> worktree_root_at (e_layout E) q = None ->
+  innermost (e_layout E) q = Some r -> keeps E r f = true /\ resolve E f = q.
+Proof.
+  intros Hs Hn Hin. destruct (innermost_spec _ _ _ Hin) as (Hi & Hp & Hb).
   unfold keeps, in_wd, resolve, canon. rewrite Hs. rewrite workdir_nonbare by exact Hb.
-  rewrite Hp. rewrite orb_true_r. now split.
+  rewrite Hp. destruct (strip_path_prefix _ _ Hp) as (rest & Hst & Hq). rewrite Hst.
+  destruct rest as [| c rest].
+  - exfalso. rewrite app_nil_r in Hq. subst q.
+    apply (root_at_in false (e_layout E) r Hi); [intros _; exact Hb | exact Hn].
+  - rewrite orb_true_r. now split.
 Qed.
 
 Lemma complete_file_based E base fl s f q r :
-  In s fl -> f = absolutize base s ->
+  In s fl -> absolutize_opt base s = Some f ->
   e_stat E f = IsFile q -> canon E (parent_raw f) = Some (removelast q) ->
   q <> [] -> worktree_root_at (e_layout E) q = None ->
   innermost (e_layout E) q = Some r -> is_submodule r = false ->
-  prefixb (resolve E base) (r_root r) = true ->
+  match base with Some b => prefixb (resolve E b) (r_root r) = true | None => True end ->
   e_allowed E r = true -> e_run_fails E r = false ->
   recorded_in E (file_based_mode E base (Some fl)) q r.
 Proof.
   intros Hi Hf Hs Hp Hq Hn Hin Hsub Hb Ha Hr.
-  assert (Hfind : find_for_file E (Some base) f = Some r)
+  assert (Hfind : find_for_file E base f = Some r)
     by (eapply find_for_file_innermost; eauto).
-  destruct (plain_file_in_wd E f q r Hs Hin) as [Hw Hres].
-  assert (Hif : In f (map (absolutize base) fl)) by (subst f; now apply in_map).
-  pose proof (groups_record E (find_for_file E (Some base)) _ f q r Hif Hfind Hw Hres Hin Ha Hr) as G.
+  destruct (plain_file_in_wd E f q r Hs Hn Hin) as [Hw Hres].
+  set (files := flat_map (fun s0 => match absolutize_opt base s0 with Some f0 => [f0] | None => [] end) fl).
+  assert (Hif : In f files).
+  { unfold files. apply in_flat_map. exists s. split; [exact Hi |]. rewrite Hf. now left. }
+  pose proof (groups_record E (find_for_file E base) _ f q r Hif Hfind Hw Hres Hin Ha Hr) as G.
   unfold recorded_in, file_based_mode.
   destruct fl as [| s0 fl0]; [destruct Hi |].
-  destruct (group_files (find_for_file E (Some base)) (map (absolutize base) (s0 :: fl0))) eqn:Eg.
+  fold files. destruct (group_files (find_for_file E base) files) eqn:Eg.
   - cbn in G. destruct G.
   - cbn [records]. exact G.
 Qed.
@@ -526,7 +563,7 @@ Proof.
   intros Hi Hf Hnw Hs Hp Hq Hn Hin Hsub Ha Hr.
   assert (Hfind : find_for_file E None f = Some r)
     by (eapply find_for_file_innermost; eauto; exact I).
-  destruct (plain_file_in_wd E f q r Hs Hin) as [Hw Hres].
+  destruct (plain_file_in_wd E f q r Hs Hn Hin) as [Hw Hres].
   unfold recorded_in, primary_mode. cbn [records flat_map files_raw].
   apply in_or_app. right.
   eapply groups_record; eauto.
@@ -553,36 +590,100 @@ Proof.
     destruct (group_files _ _); reflexivity.
 Qed.
 
-Lemma status0 E p h : e_cwd E <> None -> h <> HArgvNotUtf8 -> status_of (handle_checkpoint E p h) = 0.
+Lemma dispatch_status E cwd p h : status_of (dispatch E cwd p h) = 0.
 Proof.
-  intros Hc Hh. unfold handle_checkpoint.
-  destruct (e_cwd E) as [cwd |]; [| congruence].
-  destruct h; try reflexivity; try congruence.
-  - destruct (preset_name p); [| apply route_status].
-    destruct (preset_entry _ _) as [[ov ex] |] eqn:Ep; [| apply route_status].
-    apply preset_table_exits_zero in Ep. subst ex.
-    destruct p; try apply route_status; (destruct (decode_preset _ _ _); [apply route_status | reflexivity]).
-  - destruct (preset_name p); [| apply route_status].
-    destruct (preset_entry _ _) as [[ov ex] |] eqn:Ep; [| apply route_status].
-    apply preset_table_exits_zero in Ep. subst ex.
-    destruct p; try apply route_status; (destruct (decode_preset _ _ _); [apply route_status | reflexivity]).
+  unfold dispatch.
+  destruct h; try reflexivity;
+    (destruct (preset_name p); [| apply route_status];
+     destruct (preset_entry _ _) as [[ov ex] |] eqn:Ep; [| apply route_status];
+     apply preset_table_exits_zero in Ep; subst ex;
+     destruct p; try apply route_status; (destruct (decode_preset _ _ _); [apply route_status | reflexivity])).
 Qed.
 
-Lemma never_panics_with_cwd E p h : e_cwd E <> None -> handle_checkpoint E p h <> Panicked.
+Lemma cwd_fact : cwd_unwrap_panics = false.
+Proof. reflexivity. Qed.
+
+(* the process working directory may be gone: the status is 0 all the same *)
+Lemma status0 E p h : h <> HArgvNotUtf8 -> status_of (handle_checkpoint E p h) = 0.
 Proof.
-  intros Hc. unfold handle_checkpoint.
-  destruct (e_cwd E) as [cwd |]; [| congruence].
-  assert (R : forall ov rn, route E cwd ov rn <> Panicked).
-  { intros ov rn. unfold route.
-    match goal with |- (match ?x with _ => _ end) <> _ => destruct x as [q |] end.
-    - destruct (e_allowed E q); unfold primary_mode; discriminate.
-    - unfold file_based_mode. destruct (match rn with Some r => rn_files r | None => None end) as [[| s l] |];
-        try discriminate. destruct (group_files _ _); discriminate. }
-  destruct h; try discriminate.
-  - destruct (preset_name p); [| apply R]. destruct (preset_entry _ _) as [[ov ex] |]; [| apply R].
-    destruct p; try apply R; (destruct (decode_preset _ _ _); [apply R | discriminate]).
-  - destruct (preset_name p); [| apply R]. destruct (preset_entry _ _) as [[ov ex] |]; [| apply R].
-    destruct p; try apply R; (destruct (decode_preset _ _ _); [apply R | discriminate]).
+  intros Hh. unfold handle_checkpoint. rewrite cwd_fact.
+  destruct h; try congruence; (destruct (e_cwd E); apply dispatch_status).
+Qed.
+
+Lemma route_no_panic E cwd ov rn : route E cwd ov rn <> Panicked.
+Proof.
+  unfold route.
+  match goal with |- (match ?x with _ => _ end) <> _ => destruct x as [q |] end.
+  - destruct (e_allowed E q); unfold primary_mode; discriminate.
+  - unfold file_based_mode. destruct (match rn with Some r => rn_files r | None => None end) as [[| s l] |];
+      try discriminate. destruct (group_files _ _); discriminate.
+Qed.
+
+Lemma dispatch_no_panic E cwd p h : dispatch E cwd p h <> Panicked.
+Proof.
+  unfold dispatch.
+  destruct h; try discriminate;
+    (destruct (preset_name p); [| apply route_no_panic];
+     destruct (preset_entry _ _) as [[ov ex] |]; [| apply route_no_panic];
+     destruct p; try apply route_no_panic; (destruct (decode_preset _ _ _); [apply route_no_panic | discriminate])).
+Qed.
+
+Lemma never_panics E p h : handle_checkpoint E p h <> Panicked.
+Proof.
+  unfold handle_checkpoint. rewrite cwd_fact.
+  destruct h; try discriminate; (destruct (e_cwd E); apply dispatch_no_panic).
+Qed.
+
+(* ---- a request that names files never turns into a scan of the whole work tree *)
+Lemma scans_all_fact : foreign_request_scans_all = false.
+Proof. reflexivity. Qed.
+
+Lemma run_pass_listed_not_all E r l : l <> [] -> p_scope (run_pass E r (Some l)) <> ScopeAll.
+Proof.
+  intro Hl. unfold run_pass, scope_of. cbn [p_scope]. rewrite scans_all_fact.
+  destruct (filter (keeps E r) l); [destruct l; [congruence | discriminate] | discriminate].
+Qed.
+
+Lemma add_to_nonempty r f : forall g, (forall rf, In rf g -> snd rf <> []) -> forall rf, In rf (add_to r f g) -> snd rf <> [].
+Proof.
+  induction g as [| [r' l'] g IH]; intros H rf Hi; cbn [add_to] in Hi.
+  - destruct Hi as [<- | []]. discriminate.
+  - destruct (repo_eqb r r').
+    + destruct Hi as [<- | Hi]; [discriminate | apply H; now right].
+    + destruct Hi as [<- | Hi]; [apply (H (r', l')); now left |].
+      apply IH; [| exact Hi]. intros x Hx. apply H. now right.
+Qed.
+
+Lemma group_files_nonempty find : forall fs rf, In rf (group_files find fs) -> snd rf <> [].
+Proof.
+  induction fs as [| f fs IH]; intros rf Hi; cbn [group_files] in Hi; [destruct Hi |].
+  destruct (find f); [| now apply IH].
+  eapply add_to_nonempty; [| exact Hi]. exact IH.
+Qed.
+
+Lemma passes_of_groups_not_all E find fs : forall p, In p (passes_of_groups E (group_files find fs)) -> p_scope p <> ScopeAll.
+Proof.
+  intros p Hp. unfold passes_of_groups in Hp. apply in_map_iff in Hp as (rf & <- & Hf).
+  apply filter_In in Hf as [Hf _]. apply run_pass_listed_not_all. eapply group_files_nonempty; eauto.
+Qed.
+
+Lemma listed_request_never_scans_all E cwd ov rn fl :
+  rn_files rn = Some fl -> fl <> [] -> has_scope_all (route E cwd ov (Some rn)) = false.
+Proof.
+  intros Hf Hne. unfold route. rewrite Hf.
+  match goal with |- has_scope_all (match ?x with _ => _ end) = false => destruct x as [p |] end.
+  - destruct (e_allowed E p); [| reflexivity].
+    unfold primary_mode, has_scope_all. cbn [files_raw existsb].
+    apply orb_false_iff. split.
+    + pose proof (run_pass_listed_not_all E p (map (absolutize (raw_of_path (workdir p))) fl)) as H.
+      destruct (p_scope (run_pass E p (Some (map (absolutize (raw_of_path (workdir p))) fl)))); try reflexivity.
+      exfalso. apply H; [| reflexivity]. destruct fl; [congruence | discriminate].
+    + apply not_true_is_false. intro H. apply existsb_exists in H as (q & Hq & Hs).
+      apply passes_of_groups_not_all in Hq. destruct (p_scope q); try discriminate. now apply Hq.
+  - unfold file_based_mode. destruct fl as [| s l]; [congruence |].
+    destruct (group_files _ _) eqn:Eg; [reflexivity |].
+    unfold has_scope_all. apply not_true_is_false. intro H. apply existsb_exists in H as (q & Hq & Hs).
+    rewrite <- Eg in Hq. apply passes_of_groups_not_all in Hq. destruct (p_scope q); try discriminate. now apply Hq.
 Qed.
 
 (* ================================================================= witnesses (nested layout)
@@ -634,38 +735,42 @@ Proof.
   intros r' H. vm_compute in H. exact H.
 Qed.
 
-(* K2: every listed file lies outside the repository of repo_working_dir: its pass scans the whole work tree *)
-Lemma scope_collapse :
+(* repaired (was C20-K2): every listed file lies outside the repository of repo_working_dir — its pass records
+   nothing and scans nothing *)
+Lemma foreign_request_records_nothing :
   exists E j fs,
     decode_agent_v1 j = DOk (mkRun Human (Some s_ws_o) (Some fs) None) /\
     collapsed E w_outer (map (absolutize (raw_of_path (workdir w_outer))) fs) = true /\
     exists st ps, handle_checkpoint E PAgentV1 (HText (Some j)) = Exit st ps /\
-                  In (mkPass w_outer ScopeAll false) ps.
+                  In (mkPass w_outer ScopeNone false) ps /\ has_scope_all (Exit st ps) = false.
 Proof.
   exists (w_env (Some (r_root w_outer))), (w_payload s_ws_o [s_abs_s_x]), [s_abs_s_x].
   split; [vm_compute; reflexivity |]. split; [vm_compute; reflexivity |].
-  eexists. eexists. split; [vm_compute; reflexivity |]. now left.
+  eexists. eexists. split; [vm_compute; reflexivity |]. split; [now left | reflexivity].
 Qed.
 
-(* K3 / K4: status *)
-Lemma status0_refuted_no_cwd : forall E p h, e_cwd E = None -> h <> HArgvNotUtf8 ->
-  handle_checkpoint E p h = Panicked /\ status_of (handle_checkpoint E p h) = 101.
-Proof.
-  intros E p h Hc Hh. unfold handle_checkpoint. rewrite Hc.
-  destruct h; try congruence; split; reflexivity.
-Qed.
-
+(* K4: status *)
 Lemma status0_refuted_argv : forall E p, status_of (handle_checkpoint E p HArgvNotUtf8) = 2.
 Proof. reflexivity. Qed.
 
-Lemma status0_refuted :
-  (exists E p h, h <> HArgvNotUtf8 /\ status_of (handle_checkpoint E p h) <> 0) /\
-  (exists E p h, e_cwd E <> None /\ status_of (handle_checkpoint E p h) <> 0).
+Lemma status0_refuted : exists E p h, e_cwd E <> None /\ status_of (handle_checkpoint E p h) <> 0.
 Proof.
-  split.
-  - exists (w_env None), PAgentV1, HNone. split; [discriminate | vm_compute; discriminate].
-  - exists (w_env (Some w_ws)), PAgentV1, HArgvNotUtf8. split; [discriminate | vm_compute; discriminate].
+  exists (w_env (Some w_ws)), PAgentV1, HArgvNotUtf8. split; [discriminate | vm_compute; discriminate].
 Qed.
+
+(* repaired (was C20-K3): the process working directory is gone, the payload names the repository absolutely *)
+Lemma ex_gone_cwd :
+  let E := w_env None in
+  let o := handle_checkpoint E PAgentV1 (HText (Some (w_payload s_ws_o [[97]; s_abs_s_x]))) in
+  status_of o = 0 /\ records E o = [(w_outer, q_o_a); (w_sib, q_s_x)].
+Proof. vm_compute. split; reflexivity. Qed.
+
+(* repaired (was C20-K7): `../o/a` from /ws/o is resolved through the canonical path, its neighbour is kept *)
+Lemma ex_dotdot_reentry :
+  let E := w_env (Some (r_root w_outer)) in
+  records E (handle_checkpoint E PAgentV1 (HText (Some (w_payload s_ws_o [[46; 46; 47; 111; 47; 97]]))))
+  = [(w_outer, q_o_a)].
+Proof. vm_compute. reflexivity. Qed.
 
 (* ---- non-vacuity *)
 Definition w_all4 : list str := [[111; 47; 97]; [111; 47; 105; 47; 120]; s_abs_s_x; [47; 101; 116; 99; 47; 120]].
